@@ -207,7 +207,7 @@ class World:
         assignment or None (refused; the execution should end)."""
         self.phase = "sched"
         want = None
-        if self.model is not None:
+        if self.model is not None and not self.model_dead:
             snap = dict(self.model.opstate)
             try:
                 self.model.assign_ops(ops)
@@ -220,7 +220,7 @@ class World:
         except Exception as e:
             self.exception = ("sched", self.tick, e, site_of(e))
             self.stats["rejected"] += 1
-            if self.model is not None and want is None:
+            if self.model is not None and not self.model_dead and want is None:
                 self.flag({"C02"}, "admissible-assignment-refused", f"{[self.name(o) for o in ops]}: {type(e).__name__}: {e}", site_of(e))
             self.ended = True
             return None
@@ -355,7 +355,9 @@ class World:
                     now = (p.avail_cpu_pool, p.avail_ram_pool, [c.container_id for c in p.active_containers],
                            [c.container_id for c in p.suspending_containers])
                     b = pre[rej.pool]
-                    if now[0] != b[0] or now[1] != b[1] or now[2] != b[2]:
+                    # no free figure moved, no container created (a suspension issued in the
+                    # same tick may already have moved its container to the suspending list)
+                    if now[0] != b[0] or now[1] != b[1] or set(now[2] + now[3]) != set(b[2] + b[3]):
                         self.flag({"C03"}, "rejected-batch-left-traces", f"pool {rej.pool}: before {b} after {now}")
             self.model_dead = True
             return
@@ -374,28 +376,34 @@ class World:
         for s in sus:
             self.stats["susp_accepted"] += 1
         self.stats["accepted"] += len(asg)
-        got = sorted((self.key_of_cid.get(r.container_id), "oom" if r.failed() else "ok") for r in results)
+        got = sorted(((self.key_of_cid.get(r.container_id) or r.container_id), "oom" if r.failed() else "ok") for r in results)
         want = sorted(pred)
-        if got != want:
-            g, w = dict(got), dict(want)
-            for k in sorted(set(g) | set(w), key=lambda x: (x is None, x)):
-                if g.get(k) == w.get(k):
-                    continue
-                rc = m.all.get(k)
-                tags = {"C09", "C05"}
-                if "oom" in (g.get(k), w.get(k)):
-                    tags |= {"C04"}
-                    if m.pool_kill_info or self.overcommit:
-                        tags |= {"C11"}
-                if rc is not None and rc.status in ("susp", "suspended"):
-                    tags |= {"C10"}
-                self.flag(tags, "result-mismatch", f"tick {self.tick} container {k}: implementation {g.get(k)}, model {w.get(k)}"
-                          + (f" (timeline pos {rc.pos}/{len(rc.tl)}, status {rc.status})" if rc else ""))
         for info in m.pool_kill_info:
             self.stats["pool_kills"] += 1
             if not info["admissible"]:
                 self.flag({"C11"}, "victims", f"tick {self.tick} pool {info['pool']}: {info['why']}; usage {float(info['total'])} cap {float(info['cap'])} "
                           f"candidates(key,use,alloc) {[(k, float(u), float(a)) for k, u, a in info['cands']]} killed {info['observed']}")
+                self.model_dead = True
+        if got != want:
+            g, w = dict(got), dict(want)
+            for k in sorted(set(g) | set(w), key=str):
+                if g.get(k) == w.get(k):
+                    continue
+                rc = m.all.get(k)
+                pair = (g.get(k), w.get(k))
+                if pair[0] == "oom":       # killed although the model sees no reason
+                    tags = {"C04"} | ({"C11"} if self.overcommit else {"C05"})
+                elif pair[1] == "oom":     # survived (or finished) although its demand exceeded a limit
+                    tags = {"C04", "C05"} | ({"C11"} if m.pool_kill_info else set())
+                else:                      # finished early / late / not at all
+                    tags = {"C05", "C09"}
+                if rc is not None and rc.status in ("susp", "suspended"):
+                    tags |= {"C10"}
+                self.flag(tags, "result-mismatch", f"tick {self.tick} container {k}: implementation {g.get(k)}, model {w.get(k)}"
+                          + (f" (timeline pos {rc.pos}/{len(rc.tl)}, status {rc.status})" if rc else ""))
+            self.model_dead = True
+        if self.model_dead:
+            return  # everything below would only restate the same divergence
         for k, kind in pred:
             self.stats["results_" + kind] += 1
         # operator states
@@ -411,6 +419,9 @@ class World:
                     if F in (st.value, w):
                         tags |= {"C09"}
                     self.flag(tags, "operator-state-mismatch", f"tick {self.tick} {self.name(op)}: implementation {st.value}, model {w}")
+                    self.model_dead = True
+        if self.model_dead:
+            return
         # pool figures and live sets
         for pid, p in enumerate(ex.pools):
             mp = m.pools[pid]
@@ -420,6 +431,7 @@ class World:
                     tags |= {"C10"}
                 self.flag(tags, "free-figures-mismatch", f"tick {self.tick} pool {pid}: implementation cpu {p.avail_cpu_pool} ram {p.avail_ram_pool}, "
                           f"model cpu {float(mp.free_cpu)} ram {float(mp.free_ram)}")
+                self.model_dead = True
             live_impl = sorted(self.key_of_cid.get(c.container_id, c.container_id) for c in p.active_containers + p.suspending_containers)
             live_model = sorted(rc.key for rc in mp.live)
             if live_impl != live_model:
@@ -427,6 +439,7 @@ class World:
                 if any(rc.status == "susp" for rc in mp.live) or len(p.suspending_containers):
                     tags |= {"C10"}
                 self.flag(tags, "live-set-mismatch", f"tick {self.tick} pool {pid}: implementation {live_impl}, model {live_model}")
+                self.model_dead = True
             tot = Fr(0)
             for c in p.active_containers:
                 k = self.key_of_cid.get(c.container_id)
